@@ -6,6 +6,5 @@ for d in seeded/*/; do
   c=${n%%-*}
   extra=${EXTRA_CHECKS:-}
   echo "== $n"
-  ./tools_seeded.py $d --keep --adopt $n --checks $c$extra 2>&1 | grep -a "CAUGHT\|held\|inconclusive\|error\|apply" | grep -v "^RESULT" | cut -c1-200
+  ./tools_seeded.py $d --adopt $n --checks $c$extra 2>&1 | grep -a "CAUGHT\|held\|inconclusive\|error\|apply" | grep -v "^RESULT" | cut -c1-200
 done
-git -C /repo worktree remove --force /tmp/vv-seeded-eval 2>/dev/null
